@@ -1,6 +1,18 @@
 import StunVerif.Props.C15
+import StunVerif.Props.SrcFnAgent
 #print axioms StunVerif.C15.step_validated
 #print axioms StunVerif.C15.validated_iff
 #print axioms StunVerif.C15.monotone
 #print axioms StunVerif.C15.others_never_validate
 #print axioms StunVerif.C15.no_cross
+#print axioms StunVerif.SrcFnAgent.src_reqPoll
+#print axioms StunVerif.SrcFnAgent.src_validatedPeer
+#print axioms StunVerif.SrcFnAgent.src_takeOutstanding
+#print axioms StunVerif.SrcFnAgent.remove_of_lookup_none
+#print axioms StunVerif.SrcFnAgent.src_handleStun
+#print axioms StunVerif.SrcFnAgent.src_send_request
+#print axioms StunVerif.SrcFnAgent.src_send_other
+#print axioms StunVerif.SrcFnAgent.src_cancel
+#print axioms StunVerif.SrcFnAgent.src_cancelRetransmissions
+#print axioms StunVerif.SrcFnAgent.foldl_add_eq_sum
+#print axioms StunVerif.SrcFnAgent.src_configureTimeout
